@@ -10,7 +10,7 @@ Definition lenz {A} (l : list A) : Z := Z.of_nat (length l).
 (* a cloud interface as the harness reports it *)
 Record cif := mkCif { ci_id : Z; ci_inuse : bool; ci_member : bool; ci_tags : Z; ci_age : Z }.
 (* one step: 4 pod controller, 5 PodENI controller, 6 record collector, 7 interface collector, 12 a parked attach returned *)
-Record blk := mkBlk { b_step : Z; b_name : Z; b_err : bool; b_pods : list podv; b_recs : list prec; b_calls : list (list Z); b_pre : list cif; b_cloud : list cif }.
+Record blk := mkBlk { b_step : Z; b_name : Z; b_err : bool; b_now : Z; b_pods : list podv; b_recs : list prec; b_calls : list (list Z); b_pre : list cif; b_cloud : list cif }.
 
 Fixpoint dec_pods (n : nat) (l : list Z) : list podv * list Z :=
   match n, l with
@@ -43,7 +43,7 @@ Fixpoint dec_cifs (n : nat) (l : list Z) : list cif * list Z :=
   end.
 Definition dec_blk (l : list Z) : option (blk * list Z) :=
   match l with
-  | m :: st :: nm :: er :: np :: r =>
+  | m :: st :: nm :: er :: tnow :: np :: r =>
       if negb (m =? 88) then None else
       let '(pods, r1) := dec_pods (Z.to_nat np) r in
       match r1 with
@@ -56,7 +56,7 @@ Definition dec_blk (l : list Z) : option (blk * list Z) :=
               | npre :: r6 =>
                   let '(pre, r7) := dec_cifs (Z.to_nat npre) r6 in
                   match r7 with
-                  | ncl :: r8 => let '(cl, r9) := dec_cifs (Z.to_nat ncl) r8 in Some (mkBlk st nm (dec_bool er) pods recs calls pre cl, r9)
+                  | ncl :: r8 => let '(cl, r9) := dec_cifs (Z.to_nat ncl) r8 in Some (mkBlk st nm (dec_bool er) tnow pods recs calls pre cl, r9)
                   | [] => None end
               | [] => None end
           | [] => None end
@@ -141,6 +141,10 @@ Definition step_model (prev : list prec) (b : blk) : Z :=
     if forallb (fun r => match find_rec (b_recs b) (r_name r) with
                          | Some c => (r_phase c =? gc_rec (pod_of b (r_name r)) (mkRec (r_name r) (r_phase r) (r_uid r) (r_node r) (r_del r) (r_fin r) (r_allocs r) (r_seen c)))
                                      && same_but_phase r c
+                                     (* the pass stamps "last seen" when it finds the pod of a fixed-IP record *)
+                                     && (match pod_of b (r_name r) with
+                                         | Some p => negb (requires_rec p && have_fixed (r_allocs r)) || ((0 <=? r_seen c) && (r_seen c <=? 1))
+                                         | None => true end)
                          | None => false end) prev
        && (lenz prev =? lenz (b_recs b)) then 0 else 61
   else 0.
@@ -232,6 +236,23 @@ Definition rebound_ok (b : blk) : bool :=
 (* 1102: a fixed-IP record is given up (Deleting / deletion) only by the record collector, only when the pod is
    absent or does not need it, no allocation says Never and every TTL has elapsed since the pod was last seen *)
 Definition giving_up (r c : prec) : bool := (negb ((r_phase r =? 5) || r_del r)) && ((r_phase c =? 5) || r_del c).
+(* when did the controllers last see the pod of a record: a collector pass that finds the pod, or the attach *)
+Definition seen_upd (obs : list (Z * Z)) (prev : list prec) (b : blk) : list (Z * Z) :=
+  fold_left (fun acc c =>
+     let saw := ((b_step b =? 6) && match pod_of b (r_name c) with Some p => requires_rec p | None => false end)
+                || (((b_step b =? 5) || (b_step b =? 12)) && (r_phase c =? 1)
+                    && match find_rec prev (r_name c) with Some r => negb (r_phase r =? 1) | None => true end) in
+     if saw then (r_name c, b_now b) :: filter (fun x => negb (fst x =? r_name c)) acc else acc) (b_recs b) obs.
+Definition ttl_true_ok (obs : list (Z * Z)) (prev : list prec) (b : blk) : bool :=
+  forallb (fun r => if have_fixed (r_allocs r) then
+                      match find_rec (b_recs b) (r_name r) with
+                      | Some c => if giving_up r c then
+                                    match List.find (fun x => fst x =? r_name r) obs with
+                                    | Some x => forallb (fun a => negb (a_fixed a) || negb (a_strat a =? 1) || (a_ttl a <=? b_now b - snd x + 1)) (r_allocs r)
+                                    | None => true end
+                                  else true
+                      | None => true end
+                    else true) prev.
 Definition ttl_ok (prev : list prec) (b : blk) : bool :=
   forallb (fun r => if have_fixed (r_allocs r) then
                       match find_rec (b_recs b) (r_name r) with
@@ -257,7 +278,7 @@ Definition reap_ok (prev : list prec) (b : blk) : bool :=
          else true
      | _ => true end) (b_calls b).
 
-Definition blk_why (prop : Z) (created : list Z) (prev : list prec) (pre_cloud : list cif) (b : blk) (last : bool) : Z :=
+Definition blk_why (prop : Z) (created : list Z) (obs : list (Z * Z)) (prev : list prec) (pre_cloud : list cif) (b : blk) (last : bool) : Z :=
   if prop =? 10 then
     if negb (phases_ok false prev (b_recs b)) then 1001
     else if negb (pull_ok prev b) then 1002
@@ -266,15 +287,16 @@ Definition blk_why (prop : Z) (created : list Z) (prev : list prec) (pre_cloud :
   else
     if negb (allocs_stable prev (b_recs b)) then 1101
     else if negb (ttl_ok prev b) then 1102
+    else if negb (ttl_true_ok obs prev b) then 1105
     else if negb (reap_ok prev b) then 1103
     else if last && negb (rebound_ok b) then 1104
     else 0.
-Fixpoint hist_why (prop : Z) (created : list Z) (prev : list prec) (pre_cloud : list cif) (l : list blk) (idx : Z) : Z :=
+Fixpoint hist_why (prop : Z) (created : list Z) (obs : list (Z * Z)) (prev : list prec) (pre_cloud : list cif) (l : list blk) (idx : Z) : Z :=
   match l with
   | [] => 0
   | b :: r => let cr := created ++ created_in b in
-              let w := blk_why prop cr prev pre_cloud b (match r with [] => true | _ => false end) in
-              if negb (w =? 0) then w * 100000 + idx else hist_why prop cr (b_recs b) (b_cloud b) r (idx + 1)
+              let w := blk_why prop cr obs prev pre_cloud b (match r with [] => true | _ => false end) in
+              if negb (w =? 0) then w * 100000 + idx else hist_why prop cr (seen_upd obs prev b) (b_recs b) (b_cloud b) r (idx + 1)
   end.
 Fixpoint strict_why (prev : list prec) (l : list blk) (idx : Z) : Z :=
   match l with
@@ -283,7 +305,7 @@ Fixpoint strict_why (prev : list prec) (l : list blk) (idx : Z) : Z :=
   end.
 Definition why_pe (prop : Z) (l o : list Z) : Z :=
   let bs := dec_blks 2000 o in
-  let w := hist_why prop [] [] [] bs 0 in
+  let w := hist_why prop [] [] [] [] bs 0 in
   if (w =? 0) && (prop =? 10) then strict_why [] bs 0 else w.
 Definition chk_c10 (l o : list Z) : bool := why_pe 10 l o =? 0.
 Definition chk_c11 (l o : list Z) : bool := why_pe 11 l o =? 0.
